@@ -685,7 +685,46 @@ def column_keys_are_ints(repo):
 
 
 # ---------------------------------------------------------------------------
+def viewer_options(repo):
+    """option strings registered by the bitstream viewer's argument parser"""
+    vm = repo.mod("scripts.vc2_bitstream_viewer")
+    opts = set()
+    for c in ast.walk(vm.tree):
+        if isinstance(c, ast.Call) and isinstance(c.func, ast.Attribute) and c.func.attr == "add_argument":
+            for a in c.args:
+                if isinstance(a, ast.Constant) and isinstance(a.value, str) and a.value.startswith("-"):
+                    opts.add(a.value)
+    if len(opts) < 10 or "--to-offset" not in opts:
+        raise AnalysisError("bitstream viewer options not recognised (%d found)" % len(opts))
+    return opts
+
+
+def rule_hint_options(repo, res, exc):
+    """every option a viewer hint spells is one the viewer's parser accepts (exactly, or as an unambiguous prefix)"""
+    import re
+
+    opts = viewer_options(repo)
+    long_opts = [o for o in opts if o.startswith("--")]
+    n = 0
+    for c in exc.subclasses():
+        owner, fn = exc.find_method(c.name, "bitstream_viewer_hint")
+        if fn is None or owner != c.name:
+            continue
+        used = set()
+        for k in ast.walk(fn):
+            if isinstance(k, ast.Constant) and isinstance(k.value, str):
+                used.update(re.findall(r"(?<![\w-])(--[A-Za-z][\w-]*|-[A-Za-z])(?![\w-])", k.value))
+        if not used:
+            continue
+        n += 1
+        bad = sorted(u for u in used if u not in opts and not (u.startswith("--") and sum(1 for o in long_opts if o.startswith(u)) == 1))
+        res.check(not bad, "C02.6", "%s:hint-options-known-to-viewer" % c.name, "%s:%s" % (exc.mod.rel, c.name), "the viewer hint of %s spells %s, which vc2-bitstream-viewer's parser does not define (it defines e.g. %s): the suggested command ends in a usage error instead of showing the stream" % (c.name, bad, sorted(o for o in long_opts if any(o.replace("-", "") == b.replace("-", "").replace("_", "") for b in bad)) or "--to-offset"), by="options %s" % sorted(used))
+    if n < 10:
+        raise AnalysisError("only %d viewer hints with options found" % n)
+
+
 def rule_reporting(repo, res, reach, exc):
+    rule_hint_options(repo, res, exc)
     m = exc.mod
     subs = exc.subclasses()
     res.info["conformance_error_classes"] = len(subs)
